@@ -12,7 +12,7 @@ RULE = ("byte strings through ComputeCRC: all strings of length 0..2 (65 793, co
 EXHAUSTIVE = True
 EXHAUSTIVE_NOTE = ("lengths 0..2 are enumerated completely on every run. Single-bit strings: quick = every bit position for "
                    "lengths 1..24, plus 64 positions per length class up to 1024; thorough = every bit position of every "
-                   "length 1..128 and of the lengths 188, 256, 512, 1021, 1024 (so every distance-from-the-end 1..8192 occurs), "
+                   "length 1..128 and of the lengths 188, 256, 512, 1024 (so every distance-from-the-end 1..8192 occurs), "
                    "first/last/8 random positions for every other length up to 1024, and the all-zero string of every length "
                    "0..1024. The unbounded domain is covered by theorem C13_compute_crc_is_mpeg2.")
 ASSUMPTIONS = ["Go uint32 shifts/xor as written out in Model/Crc.v; encoding/binary.BigEndian.PutUint32 is big-endian"]
@@ -58,7 +58,7 @@ def gen(rng, tier):
         out.append(Case("crc.spec " + hx(v), kind="known-answer", theorem="C13_compute_crc_is_mpeg2"))
     # 3. single-bit and all-zero strings
     if thorough:
-        full = set(range(1, 129)) | {188, 256, 512, 1021, 1024}
+        full = set(range(1, 129)) | {188, 256, 512, 1024}
         for L in range(0, 1025):
             crc(bytes(L), "all-zero")
         for L in range(1, 1025):
@@ -78,7 +78,7 @@ def gen(rng, tier):
             for p in sorted({0, 1, 7, 8, 8 * L - 9, 8 * L - 8, 8 * L - 1} | {rng.randrange(8 * L) for _ in range(57)}):
                 crc(single(L, p), "single-bit")
     # 4. random strings up to 4 KiB (sizes biased to section-like lengths)
-    n = 20000 if thorough else 400
+    n = 10000 if thorough else 400
     for i in range(n):
         r = rng.random()
         L = rng.randrange(3, 64) if r < 0.4 else rng.randrange(64, 1025) if r < 0.8 else rng.randrange(1025, 4097)
